@@ -160,7 +160,21 @@ class C09(Prop):
                     out.append(V(pid, "C09/returned-executor-not-healthy", "fresh executor broken=%r shutdown=%r at return" % (r["broken"], r["shutdown"])))
         for e in res.obs.events:
             if e["op"] == "reusable" and e["phase"] == "exc":
-                out.append(V(pid, "C09/get-reusable-executor-raised/%s" % e["r"]["e"]["type"], "kw=%r: %s" % (e["o"]["kw"], e["r"]["e"]["msg"][:200])))
+                began = [c["step"] for c in res.obs.events if c["op"] == "reusable" and c["phase"] == "call"
+                         and c["thread"] == e["thread"] and c["i"] == e["i"]]
+                b = began[0] if began else 0
+                # what else happened to the executor while this call was running
+                racing = ""
+                for c in res.obs.events:
+                    if c["op"] in ("shutdown", "with") and c["thread"] != e["thread"] and c["phase"] in ("ret", "exc"):
+                        c0 = [x["step"] for x in res.obs.events if x["op"] == c["op"] and x["phase"] == "call"
+                              and x["thread"] == c["thread"] and x["i"] == c["i"]]
+                        if c0 and c0[0] <= e["step"] and c["step"] >= b:
+                            racing = "/racing-user-shutdown"
+                if not racing and any(b <= f[6] <= e["step"] for f in X.injected_kills(res)):
+                    racing = "/racing-break"
+                out.append(V(pid, "C09/get-reusable-executor-raised/%s%s" % (e["r"]["e"]["type"], racing),
+                             "kw=%r: %s" % (e["o"]["kw"], e["r"]["e"]["msg"][:200])))
         # every thread's tasks complete with their values (deaths make BrokenProcessPool legal)
         out += X.check_future_outcomes(res, pid, allow_broken=True, allow_shutdown_error=True)
         return out
